@@ -123,6 +123,17 @@ class Explorer:
         if tag:
             self.axioms_used.add(tag)
 
+    def add_axiom(self, fact, tag=None):
+        """Add a ground instance of a trusted, universally valid fact.  Valid in
+        every model of the trusted theory, so it needs no feasibility check and
+        may be added even while speculating."""
+        fact = z3.simplify(fact)
+        if z3.is_true(fact):
+            return
+        self.pc.append(fact)
+        if tag:
+            self.axioms_used.add(tag)
+
     def _check(self, cond):
         t0 = time.time()
         s = z3.Solver()
@@ -151,7 +162,8 @@ class Explorer:
             self.pos += 1
         else:
             can_t = self._check(cond) != z3.unsat
-            can_f = self._check(z3.Not(cond)) != z3.unsat
+            # the path condition is kept satisfiable, so one side always is
+            can_f = True if not can_t else self._check(z3.Not(cond)) != z3.unsat
             if can_t and can_f:
                 self.pending.append(self.trace[:self.pos] + [False])
                 d = True
